@@ -71,7 +71,7 @@ def canon(t):
     if not isinstance(t, tuple):
         return t
     h = t[0]
-    if h in ("p", "num", "str", "bool", "unit", "variant", "none", "panic"):
+    if h in ("p", "num", "str", "bool", "unit", "variant", "none", "panic", "bytes", "opaque_lit", "fnref", "cv"):
         return t
     if h == "app":
         return ("app", t[1], t[2], tuple(canon(x) for x in t[3]))
@@ -474,7 +474,7 @@ class Evaluator:
     def from_folded(self, v):
         if v[0] == "num":
             return ("num", v[1], v[2])
-        if v[0] in ("str", "bool", "none"):
+        if v[0] in ("str", "bool", "none", "bytes"):
             return v if v[0] != "none" else ("none",)
         if v[0] == "variant":
             return ("variant", v[1], v[2])
